@@ -107,6 +107,8 @@ type world struct {
 	dirs  []string
 	steps []step
 
+	many      bool // generator mode: hold many descriptors open (table growth at 64/128/192)
+	maxOpen   int
 	lastErrno uint32 // errno of the most recent WASI call
 	audits    int
 
@@ -356,8 +358,11 @@ func (w *world) apply(s step) string {
 	if msg != "" {
 		return msg
 	}
+	if n := len(w.m.FDs); n > w.maxOpen {
+		w.maxOpen = n
+	}
 	if w.lastErrno != 0 || tableOps[s.Op] {
-		return w.audit("after " + fmtStep(s) + " (" + errnoName(w.lastErrno) + ")")
+		return w.audit("after "+fmtStep(s)+" ("+errnoName(w.lastErrno)+")", false, s.FD, s.To)
 	}
 	return ""
 }
@@ -366,19 +371,45 @@ func (w *world) apply(s step) string {
 // without side effects): exactly the descriptors the model holds must be open, with the
 // model's file type and size. Descriptors are valid from the open that returned them until
 // they are closed, and no other number is ever valid.
-func (w *world) audit(when string) string {
+func (w *world) audit(when string, full bool, focus ...int32) string {
 	m := w.m
 	hi := int32(6)
 	for fd := range m.FDs {
-		if fd < 60 && fd+3 > hi {
+		if fd+3 > hi {
 			hi = fd + 3
 		}
 	}
+	sel := map[int32]bool{63: true, 64: true, 65: true}
+	if full || hi <= 40 {
+		for fd := int32(3); fd < hi; fd++ {
+			sel[fd] = true
+		}
+	} else {
+		// large tables: the numbers around the descriptors the call touched, the lowest
+		// free number and the top of the table; after a failed call also a rotating 1/16
+		// sample and the word boundaries of the table. The whole table is audited at the
+		// end of the history.
+		lf := m.LowestFree()
+		around := append([]int32{lf, hi - 2}, focus...)
+		if w.lastErrno != 0 {
+			for fd := 3 + int32(w.audits%16); fd < hi; fd += 16 {
+				sel[fd] = true
+			}
+			around = append(around, 128, 192)
+		}
+		for _, c := range around {
+			for d := int32(-1); d <= 1; d++ {
+				if c+d >= 3 && c+d < hi+2 {
+					sel[c+d] = true
+				}
+			}
+		}
+	}
 	var probe []int32
-	for fd := int32(3); fd < hi; fd++ {
+	for fd := range sel {
 		probe = append(probe, fd)
 	}
-	probe = append(probe, 63, 64, 65)
+	sort.Slice(probe, func(i, j int) bool { return probe[i] < probe[j] })
 	w.audits++
 	for _, fd := range probe {
 		errno, msg := w.call("fd_filestat_get", uint64(uint32(fd)), memStat)
@@ -846,6 +877,11 @@ func (w *world) classes() fdClasses {
 	}
 	add(63)
 	add(64)
+	if w.many {
+		for _, fd := range []int32{127, 128, 129, 191, 192} {
+			add(fd)
+		}
+	}
 	return c
 }
 
@@ -949,10 +985,6 @@ func (w *world) genPath(t *rapid.T, dirfd int32, want string, allowDot bool) str
 	for i := 0; i < n; i++ {
 		cs = append(cs, name())
 	}
-	if rapid.IntRange(0, 3).Draw(t, "slash") == 3 {
-		// narrowing (iv): no trailing slashes (and no symlinks: no generated call creates one)
-		evid.Label("narrow-iv-trailing-slash", 1)
-	}
 	return strings.Join(cs, "/")
 }
 
@@ -1033,7 +1065,118 @@ func (w *world) genStep(t *rapid.T) step {
 	return s
 }
 
+// genMany biases towards holding many descriptors: opens of existing files and directories
+// (the same ones again and again), some closes of random descriptors and renumbers.
+func (w *world) genMany(t *rapid.T) (step, bool) {
+	c := w.classes()
+	r := rapid.IntRange(0, 19).Draw(t, "manyop")
+	switch {
+	case r < 14:
+		fd := w.pickDirFD(t, c)
+		flags := rapid.SampledFrom([]string{"r", "rw", "rd", "rwc", "w", "rwa", "r"}).Draw(t, "flags")
+		want := "any"
+		switch {
+		case strings.Contains(flags, "d"):
+			want = "dir"
+		case strings.Contains(flags, "w"):
+			want = "file"
+		}
+		return step{Op: "path_open", FD: fd, Path: w.genPath(t, fd, want, false), Flags: flags}, true
+	case r < 17:
+		var closable []int32
+		for _, fd := range w.m.SortedFDs() {
+			if d := w.m.FDs[fd]; !d.Stdio && !d.Preopen {
+				closable = append(closable, fd)
+			}
+		}
+		if len(closable) > 0 {
+			// uniform over the open descriptors: an index drawn from the middle of the range
+			i := rapid.IntRange(0, 2*len(closable)-1).Draw(t, "victim") % len(closable)
+			return step{Op: "fd_close", FD: closable[i]}, true
+		}
+	}
+	return step{}, false
+}
+
+// lexicalOps are the calls that act on a directory entry (not on what it names).
+var entryOps = map[string]bool{"path_create_directory": true, "path_remove_directory": true, "path_unlink_file": true, "path_rename": true}
+
+// spell re-spells a path: trailing slash, "./", "/.", "//", "x/../", "..", absolute. The
+// model resolves every spelling with POSIX rules (see fsmodel.resolvePath).
+func (w *world) spell(t *rapid.T, op string, dirfd int32, p string) string {
+	if p == "." || p == "" {
+		return p
+	}
+	k := rapid.IntRange(0, 47).Draw(t, "spelling")
+	name := func() string {
+		if d := w.m.FDs[dirfd]; d != nil && d.Ino != nil && d.Ino.Dir && rapid.IntRange(0, 3).Draw(t, "realdir") != 3 {
+			if _, dirs := fsmodel.Paths(d.Ino); len(dirs) > 0 {
+				return rapid.SampledFrom(dirs).Draw(t, "viadir")
+			}
+		}
+		return rapid.SampledFrom(names).Draw(t, "via")
+	}
+	q := p
+	switch {
+	case k < 32:
+		return p
+	case k < 37:
+		q = p + "/"
+	case k == 37:
+		q = "./" + p
+	case k == 38:
+		q = p + "/."
+	case k == 39:
+		q = strings.Replace(p, "/", "//", 1)
+		if q == p {
+			q = p + "//"
+		}
+	case k == 40 || k == 41:
+		q = name() + "/../" + p
+	case k == 42:
+		q = p + "/.."
+	case k == 43:
+		q = "./" + p + "/"
+	case k == 44:
+		q = p + "/../" + rapid.SampledFrom(names).Draw(t, "sibling")
+	case k == 45:
+		q = name() + "/./" + p
+	case k == 46:
+		q = "../" + p
+	default:
+		q = "/" + p
+	}
+	if w.m.LexicalDiffers(dirfd, q, entryOps[op]) && lexicalBroken() {
+		// known finding C16-lexical-dot-components: class excluded, its inputs are re-run by
+		// TestLexicalDotComponents
+		evid.Label("excluded-lexical-dot-components", 1)
+		return p
+	}
+	evid.Label("spelling-decorated", 1)
+	return q
+}
+
 func (w *world) genStep0(t *rapid.T) step {
+	if w.many {
+		if s, ok := w.genMany(t); ok {
+			return s
+		}
+	}
+	s := w.genStep1(t)
+	switch s.Op {
+	case "path_open", "path_filestat_get", "path_create_directory", "path_remove_directory", "path_unlink_file":
+		s.Path = w.spell(t, s.Op, s.FD, s.Path)
+	case "path_rename":
+		s.Path = w.spell(t, s.Op, s.FD, s.Path)
+		s.Path2 = w.spell(t, s.Op, s.To, s.Path2)
+		if w.m.RenameSameMissing(s.FD, s.Path, s.To, s.Path2) && renameSameMissingBroken() {
+			s.Path2 += "x"
+		}
+	}
+	return s
+}
+
+func (w *world) genStep1(t *rapid.T) step {
 	c := w.classes()
 	op := rapid.SampledFrom(opWeights).Draw(t, "op")
 	if len(c.files) == 0 && fileOps[op] && rapid.IntRange(0, 3).Draw(t, "needfile") != 0 {
@@ -1274,6 +1417,61 @@ func TestRenameSameMissing(t *testing.T) {
 	evid.Bulk(1, 0, "rename-same-missing-probe")
 }
 
+// known finding: "." and ".." components are normalised lexically
+
+var lexicalCases = []histCase{
+	{Kind: "history", NPre: 1, Seed: []seedEnt{{Path: "f", Data: "x"}}, Steps: []step{
+		{Op: "path_filestat_get", FD: 3, Path: "f/."}}},
+	{Kind: "history", NPre: 1, Seed: []seedEnt{{Path: "f", Data: "x"}, {Path: "g", Data: "y"}}, Steps: []step{
+		{Op: "path_filestat_get", FD: 3, Path: "f/../g"}}},
+	{Kind: "history", NPre: 1, Seed: []seedEnt{{Path: "d", Dir: true}}, Steps: []step{
+		{Op: "path_remove_directory", FD: 3, Path: "d/."}}},
+}
+
+var (
+	lxOnce   sync.Once
+	lxBroken bool
+	lxMsgs   []string
+)
+
+func lexicalBroken() bool {
+	if os.Getenv("C16_NO_EXCLUDE") != "" {
+		return false
+	}
+	lxOnce.Do(func() {
+		for _, c := range lexicalCases {
+			m := runHistory(c)
+			lxMsgs = append(lxMsgs, m)
+			if m != "" {
+				lxBroken = true
+			}
+		}
+	})
+	return lxBroken
+}
+
+func TestLexicalDotComponents(t *testing.T) {
+	if evid.ReplayPath() != "" {
+		t.Skip()
+	}
+	if !evid.Mine(0) {
+		t.Skip()
+	}
+	if lexicalBroken() {
+		for i, m := range lxMsgs {
+			if m == "" {
+				continue
+			}
+			if evid.Finding("C16-lexical-dot-components", "lexical-dot-components", lexicalCases[i], "'.'/'..' components are removed lexically instead of being resolved: %s", m) {
+				t.Errorf("'.'/'..' components are removed lexically instead of being resolved: %s", m)
+			}
+		}
+	} else {
+		evid.Note("'.' and '..' path components are resolved like POSIX on this tree; the class is part of the generated histories")
+	}
+	evid.Bulk(1, 0, "lexical-dot-components-probe")
+}
+
 // runHistory executes a recorded history without rapid.
 func runHistory(c histCase) string {
 	w, err := newWorld(c.NPre, c.Seed...)
@@ -1290,6 +1488,14 @@ func runHistory(c histCase) string {
 			return msg
 		}
 	}
+	return w.finish()
+}
+
+// finish audits the whole descriptor table, closes the guest and compares the trees.
+func (w *world) finish() string {
+	if msg := w.audit("at the end of the history", true); msg != "" {
+		return msg
+	}
 	w.rt.Close(w.ctx)
 	return w.finalCheck()
 }
@@ -1303,6 +1509,12 @@ func runHistoryProp(t *rapid.T) {
 	}
 	defer w.close()
 	n := rapid.IntRange(5, 40).Draw(t, "nsteps")
+	if rapid.IntRange(0, 7).Draw(t, "many") == 7 {
+		// a share of the histories holds many descriptors open so that the table grows past
+		// 64, 128 and 192 entries
+		w.many = true
+		n = rapid.IntRange(70, 300).Draw(t, "manysteps")
+	}
 	cs := func() histCase { return histCase{Kind: "history", NPre: npre, Seed: seed, Steps: w.steps} }
 	for k := 0; k < n; k++ {
 		s := w.genStep(t)
@@ -1315,8 +1527,7 @@ func runHistoryProp(t *rapid.T) {
 			evid.Fail(t, cs(), "%s", msg)
 		}
 	}
-	w.rt.Close(w.ctx)
-	if msg := w.finalCheck(); msg != "" {
+	if msg := w.finish(); msg != "" {
 		evid.Fail(t, cs(), "%s", msg)
 	}
 	nt := w.m.Reused || w.mixedIO || w.rewindListing
@@ -1338,6 +1549,14 @@ func runHistoryProp(t *rapid.T) {
 	}
 	if npre == 2 {
 		lbl = append(lbl, "hist-two-preopens")
+	}
+	if w.many {
+		lbl = append(lbl, "hist-many-descriptors")
+	}
+	for _, lim := range []int{64, 128, 192} {
+		if w.maxOpen > lim {
+			lbl = append(lbl, fmt.Sprintf("hist-more-than-%d-open-at-once", lim))
+		}
 	}
 	b, _ := json.Marshal(cs())
 	evid.Case(evid.Hash64("history", string(b)), nt, lbl...)
